@@ -5,7 +5,8 @@ import ast
 
 from .. import astutil as A
 from ..cfg import cfg_of, within
-from ..dataflow import derives, local_defs, reaching
+from ..dataflow import derives, expand, local_defs, reaching
+from ..loader import enclosing_stmt
 from .c15 import _name_agreement
 
 EXPL = (
@@ -602,7 +603,29 @@ def r16_7(ck):
                    'ports_schema() returned: a process class that returns '
                    'a shared schema leaks the override of one instance to '
                    'all the others', stmt)
-    ck.floor('R16.7', n, 2, 'merges in get_schema')
+    ck.floor('R16.7', n, 1, 'merges in get_schema')
+    # what is merged: both the stored override and the one handed in (a loop
+    # over a literal tuple of the two counts for each element)
+    merged = set()
+    for c in A.calls_in(gs.node, 'deep_merge'):
+        a = A.arg_of(c, 1, 'merge_dct')
+        if a is None:
+            continue
+        srcs = [a]
+        if isinstance(a, ast.Name):
+            ds = [d for d in reaching(gs.node).at(enclosing_stmt(c), a.id)]
+            if ds and all(d.kind == 'for' and isinstance(
+                    d.value, (ast.Tuple, ast.List)) for d in ds):
+                srcs = [e for d in ds for e in d.value.elts]
+        for e in srcs:
+            merged.add(A.unparse(expand(gs.node, e, enclosing_stmt(c))))
+    pov = A.params_of(gs.node)[1] if len(A.params_of(gs.node)) > 1 else None
+    ck.require('self.schema_override' in merged and pov in merged, 'R16.7',
+               gs, gs.node.name,
+               'get_schema merges both the stored schema_override and the '
+               'override it is handed',
+               'get_schema merges %s: an override would be ignored'
+               % sorted(merged))
     mo = ck.fn('Process.merge_overrides', 'core.process')
     ow = Ownership(ck, mo, 'R16.7')
     m = 0
